@@ -13,6 +13,15 @@ NOTE_R = ("Mode R = IEEE specials over exact reals (no rounding/overflow/signed 
           "with instance axioms. Trusted: z3, the shim's model of NumPy element semantics, the oracles in /verif/spec and the harness. ")
 
 CHECKS = {
+    "C10": dict(
+        text="Bounded symbolic verification: fuzzy outputs are enumerated skeletons (0-4 activations over up to 3 terms with repetitions, "
+             "term kinds Constant/Linear/Function/six monotonic/Triangle) with every degree, constant, coefficient, input and term "
+             "parameter symbolic; the real WeightedAverage/WeightedSum.defuzzify, Aggregated.grouped_terms and infer_type run for each "
+             "type and aggregation operator, and per path the result equals the statement's grouped weighted average/sum, an extra "
+             "degree-0 activation never changes it, NaN iff no activations or zero total weight, averages of constants stay within the "
+             "activated constants, kind inference/TypeError as documented - each an SMT query over all values.",
+        note=NOTE_R + "Degrees in [0,1] (Tsukamoto: below the height); exp/log uninterpreted with axioms; skeleton sizes bounded.",
+        ref="DESIGN.md §2 C10"),
     "C08": dict(
         text="Bounded symbolic verification: a block of n rules whose degrees are independent symbols in [0,1] (zeros, ties and "
              "equal-to-threshold inside) is activated by the real RuleBlock.activate under each of the 7 methods with a symbolic rule "
